@@ -19,6 +19,8 @@ claimed={
    ref="DESIGN.md section 4 C01", technique="bounded symbolic execution of go/ssa with uninterpreted compression function, one inductive step per operation, SMT (z3 5.1, cvc5 cross-check); counterexamples replayed natively against the real assembly"),
  "C11":dict(text="Bounded symbolic model checking of the real ZUC seekable cipher and MAC code with the keystream generator abstracted (state = stream identity + word counter, keystream words uninterpreted): one XORKeyStream / XORKeyStreamAt operation from an arbitrary state satisfying the representation invariant (positions, seek targets and bucket sizes on a boundary grid, data symbolic) yields src xor keystream at the absolute positions and re-establishes the invariant incl. every checkpoint, so arbitrary call histories follow by induction; 128-EIA3 and the ZUC-256 MAC (4/8/16-byte tags) for every message of 0..33 bytes plus 0..7 extra bits, 3-way write splits, interleaved Sum, reuse after Reset/Finish, against bit-by-bit keystream-window definitions. One known finding (ZUC-256 MAC tail, pinned by existing test vectors) is reported as KNOWN-FINDING. The generator core vs GM/T 0001 and the assembly are outside.",
    ref="DESIGN.md section 4 C11", technique="bounded symbolic execution of go/ssa with uninterpreted keystream, inductive step from an arbitrary invariant-satisfying state, term normalisation + SMT (z3 5.1, cvc5 cross-check); counterexamples replayed natively against the real generator"),
+ "C04":dict(text="Bounded symbolic model checking of the real AEAD code over an uninterpreted block cipher: CCM Seal/Open (generic Go incl. the real crypto/cipher CTR) against RFC 3610 for nonce sizes 7..13, tag sizes 4..16, plaintexts 0..33 (65) bytes, AAD classes incl. the 0xff00 length-encoding boundary; GCM Seal/Open of the table-driven Go implementation and of the Go wrapper around the fused assembly (kernels as contract models, GF(2^128) multiplication uninterpreted) against SP 800-38D on the SSE and AVX2 batch sizes, nonce sizes incl. non-96-bit (symbolic J0, counter wrap), tag sizes 12..16; Seal only appends; Open succeeds iff the tag recomputed over exactly the received fields equals the received tag, and on failure returns nil with the output region zeroed and the dst prefix untouched.",
+   ref="DESIGN.md section 4 C04", technique="bounded symbolic execution of go/ssa over uninterpreted block cipher and field multiplication, SMT (z3 5.1, cvc5 cross-check); counterexamples replayed natively against the real assembly"),
 }
 NA={
  "C20":"data-race freedom over all schedules needs a concurrent execution model (threads, happens-before, sync/atomic); the go/ssa symbolic executor is sequential by construction and no Go symbolic concurrency engine is available in the image (DESIGN.md section 4 C20)",
